@@ -16,6 +16,13 @@ STRENGTHENED = {
  "C05-r2m1": "round 2, first run: caught by C19 only (EdgeHashMap::insert leaks a reference when the key exists: only the DDDMP exporter inserts an edge twice). Histories now contain DDDMP (ascii/binary) and DOT exports of live handles, so the reference-count audit sees the leak in C01/C03/C05.",
  "C07-r2m2": "round 2, first run: caught by C05 (c05_bg) only (background collector thread keeps a stale free-list head: needs two automatic collections). C07 now also runs c05_bg and every third free-running stress round uses a 150..600-slot store so that the background collector runs repeatedly alongside several application threads.",
  "C14-r2m2": "round 2, first run: missed (DDDMP import leaks already resolved roots when negating a later complemented root fails). Added c14_import: 3-root files exported from bcdd/bdd/zbdd imported into managers of every capacity 0..demand+2 with audit + teardown after each.",
+ "C01-r2m2": "round 2b, first run: caught by C10 only (F64 add/sub no longer normalise a freshly generated NaN: two NaN terminals). C01's own jobs covered bdd/bcdd/zbdd only although the property names every DD kind; C01 now also runs c10_dd (MTBDD I64/F64) and c11_rand (TDD), whose history monitors carry the canonicity clauses 'equal value tables <=> identical handles'.",
+ "C02-r2m1": "round 2b, first run: missed (only the single-threaded BCDDFunction::imp_strict_edge is wrong; every C02 job used the multi-threaded function types). C02 now runs c02_rand (quick) and c02_pairs (thorough) on the `st` variant, i.e. oxidd built without `multi-threading`.",
+ "C02-r2m2": "round 2b, first run: missed (ZBDD eval ignores a later `false` for a variable given twice; all eval calls passed each variable once). c02_pairs now evaluates every function with every variable given twice (complement first) and c02_rand with shuffled argument lists containing repeats and omitted false variables ('the last value counts').",
+ "C03-r2m1": "round 2b, first run: missed by C03 and C08 (concurrent bubble sort starts a swap next to one still running; c08_large only shuffled a 6-variable window, which rarely produces two adjacent pending swaps). c08_large now alternates the window shuffles with reversals of the whole order and of 12..24 consecutive levels, and is cross-listed under C03.",
+ "C04-r2m1": "round 2b, first run: caught by C06 (c06_subst_ids) only; the substitution clause belongs to C04 as much as to C06, so C04 now runs c06_subst_ids too.",
+ "C04-r2m2": "round 2b, first run: missed (wrong arm in the trait's DEFAULT apply_unique, which neither BDD nor BCDD uses). Added c04_defaults: newtype functions with derived Function/BooleanFunction and a hand-written BooleanFunctionQuant holding only the required methods, so the defaults of oxidd-core run; 8 operators x 8 variable sets x 3 quantifiers x random operand pairs x 6 orders.",
+ "C09-r2m1": "round 2b, first run: missed (results of the two halves swapped where the parallel recursor's remaining depth reaches 0; every harness manager forced the split depth to MAX, so that point was never reached). Added c02_deep / c04_deep / c09_deep (13..16 variables, 2..8 workers, AUTOMATIC split depth, dense operands) and random split depths 0/1/2/MAX in c04_rand / c09_rand and the MTBDD/TDD monitors.",
 }
 rows = []
 for d in sorted(glob.glob(f"{ROOT}/seeded/C*-*m*")):
